@@ -18,6 +18,7 @@ import (
 	"fmt"
 	"strings"
 	"sync"
+	"time"
 
 	"github.com/canonical/sqlair"
 
@@ -327,6 +328,75 @@ func wrappedArgs() []string {
 				if n > 0 {
 					why = append(why, fmt.Sprintf("%s: %d statement(s) prepared or executed on the database although the arguments are invalid", what, n))
 				}
+			}
+		}
+	}
+	if len(why) > 4 {
+		why = why[:4]
+	}
+	return why
+}
+
+// cancelDuringFetch (l4; C13): the caller's context is cancelled inside the driver while it
+// fetches row k of a Get / GetAll / Iterator loop, and closing a result set takes the driver
+// a moment (database/sql's own watcher then closes the rows in the background): when the
+// call returns (for an Iterator: when Close returns) the result set it opened is closed - by
+// the library, not some time later by the watcher (C13m: an early return on ctx.Err() inside
+// GetAll's row loop that skips Close).
+func cancelDuringFetch() []string {
+	var why []string
+	s, err := sqlair.Prepare("SELECT &ovRow.* FROM t", ovRow{})
+	if err != nil {
+		return []string{"prepare: " + err.Error()}
+	}
+	rows := [][]driver.Value{{int64(1), int64(10)}, {int64(2), int64(20)}, {int64(3), int64(30)}}
+	for _, op := range []string{"getall", "get", "iter"} {
+		for _, path := range []string{"db", "tx"} {
+			for k := 0; k < 3; k++ {
+				sqldb, st := fakedrv.Open()
+				db := sqlair.NewDB(sqldb)
+				ctx, cancel := context.WithCancel(context.Background())
+				st.SetScript(fakedrv.Script{Columns: []string{"_sqlair_0", "_sqlair_1"}, Rows: rows, SlowClose: 40 * time.Millisecond,
+					Faults: []fakedrv.Fault{{Kind: "next", N: k, Cancel: cancel}}})
+				var q *sqlair.Query
+				var tx *sqlair.TX
+				if path == "db" {
+					q = db.Query(ctx, s)
+				} else {
+					tx, err = db.Begin(context.Background(), nil)
+					if err != nil {
+						cancel()
+						sqldb.Close()
+						continue
+					}
+					q = tx.Query(ctx, s)
+				}
+				switch op {
+				case "getall":
+					var xs []ovRow
+					q.GetAll(&xs)
+				case "get":
+					var x ovRow
+					q.Get(&x)
+				case "iter":
+					it := q.Iter()
+					for it.Next() {
+						var x ovRow
+						if it.Get(&x) != nil {
+							break
+						}
+					}
+					it.Close()
+				}
+				open := st.OpenRows()
+				if open != 0 {
+					why = append(why, fmt.Sprintf("%s through %s, context cancelled while the driver fetched row %d, the driver taking 40 ms to close a result set: %d result set(s) still open when the call returned", op, path, k, open))
+				}
+				if tx != nil {
+					tx.Rollback()
+				}
+				cancel()
+				sqldb.Close()
 			}
 		}
 	}
